@@ -64,8 +64,10 @@ def guards(text):
 def one_section(body):
     """Exactly one acquisition, bound by `let` in the outermost block of `body`, never dropped early."""
     gs = guards(body)
-    return (len(ACQ.findall(body)) == 1 and len(gs) == 1 and gs[0][3] == len(body)
-            and re.search(r"drop\(\s*" + gs[0][0] + r"\s*\)", body) is None)
+    if not (len(ACQ.findall(body)) == 1 and len(gs) == 1 and gs[0][3] == len(body)): return False
+    # an early release is harmless only as the end of the section: nothing after it touches the state
+    m = re.search(r"drop\(\s*" + gs[0][0] + r"\s*\)\s*;", body)
+    return m is None or re.search(r"\b" + gs[0][0] + r"\b|self\.state", body[m.end():]) is None
 
 
 def call_outside_lock(d):
